@@ -17,7 +17,7 @@ STATUS = """
 > (value specs = §2.4), `vlib/refcodec.py` + `vlib/refpeer.py` (§2.3), `vlib/simkernel.py` + `vlib/pair.py` (§2.2),
 > `vlib/servers.py` (real servers for C16/C17), `vlib/fuzz.py` + `vlib/fuzz_brine.py` (atheris campaign), `props/cNN.py`
 > (one driver per property), `tools/` (manifest generator, sensitivity runner, seeded-change harvesting / re-validation).
-> No source hook was needed in rpyc (`MANIFEST.hooks.source_commits` is empty); 18 `fix:` commits repair genuine defects
+> No source hook was needed in rpyc (`MANIFEST.hooks.source_commits` is empty); 19 `fix:` commits repair genuine defects
 > the checks found (§3).
 """
 if "**Status (as built).**" not in s:
@@ -154,9 +154,9 @@ Every entry below was first reported by a check as a VIOLATION with a shrunk rep
 then either repaired by one minimal unguarded `fix:` commit in /repo (the repository's 57 tests pass after each) or kept as a
 known finding with a signature specific enough that a different violation of the same property still fails the check. The
 expected findings F1–F10 of the design all materialised except that F4 turned out to be two windows (F4, F4b) and F10 was
-repaired. Eleven further defects were not anticipated (C01 unboxing race, C04 huge integers, C11 concurrent cleanup, C16 pool
+repaired. Twelve further defects were not anticipated (C01 unboxing race, C04 huge integers, C11 concurrent cleanup, C16 pool
 authentication, C16 pool descriptor re-use - found when a seeded change led to the slow-disconnect-hook scenario -, C17
-`server.clients` leftover, forking children and clients behind a wrapping authenticator surviving `close()`, C02/C08 failing `repr()`, C02 `buffiter`, C02 `|` and `with`, C13 completion callback lost when registered during the dispatch).
+`server.clients` leftover, forking children and clients behind a wrapping authenticator surviving `close()`, C02/C08 failing `repr()`, C02 `buffiter`, C02 `|` and `with`, C13 completion callback lost when registered during the dispatch, C09 on-demand import through a loaded module).
 
 | property | status | signature | what fails |
 |---|---|---|---|
